@@ -31,6 +31,7 @@ var (
 
 const (
 	defaultRetain = 2592000 // 30-days
+	maxPrealloc   = 1024    // the largest result buffer allocated before any message is found
 )
 
 // Storage represents a message storage contract that message storage provides
